@@ -56,7 +56,8 @@ def run(chk):
     # ---- translator tie: create_spin_range as translated from the current source text (C05_code.v)
     from runners.helpers_flow import run_helpers, TRUSTED as HTRUSTED
     chk.assumptions += HTRUSTED
-    if not run_helpers(chk, "C05_code.v", {"create_spin_range"}):
+    if not run_helpers(chk, "C05_code.v", {"create_spin_range", "assert_three_body_decay", "get_spectator_id",
+                                           "get_decay_product_ids"}):
         proofs_ok = False
     n = 600 if chk.tier == "thorough" else 60
     rc, doc, out = chk.bridge_json("search_C05.py", [str(chk.seed), str(n)], timeout=2400)
